@@ -3,6 +3,7 @@
 package mc
 
 import (
+	banktypes "github.com/cosmos/cosmos-sdk/x/bank/types"
 	"encoding/json"
 	"fmt"
 	"os"
@@ -110,6 +111,10 @@ func c04Requests() []c04Req {
 	return rs
 }
 
+// c04FailingSecond is not a companion transaction: it marks units whose first request shares its transaction
+// with a message that fails (see c04Plan)
+const c04FailingSecond = "failing_second_message_in_the_request_tx"
+
 var c04Companions = []string{"none", "join_p1", "exit_p1", "big_opposite_swap", "price_up", "price_down"}
 
 func c04Companion(w *World, kind string) *PlannedTx {
@@ -191,7 +196,14 @@ func c04Plan(w *World, u c04Unit, reqs []c04Req) *BlockPlan {
 			reqs[i].Limit = lim
 		}
 		r := reqs[i]
-		plan.Txs = append(plan.Txs, PlannedTx{Signer: r.Sender, Msgs: []sdk.Msg{r.Build(w, &r)}, Tag: r.Name})
+		msgs := []sdk.Msg{r.Build(w, &r)}
+		if u.Comp == c04FailingSecond && len(u.Reqs) > 0 && i == u.Reqs[0] {
+			// the FIRST request's transaction carries a second message that fails at delivery: the request was
+			// accepted (and queued) by its own message, then the whole transaction is rolled back
+			a := w.A(r.Sender)
+			msgs = append(msgs, &banktypes.MsgSend{FromAddress: a.Addr.String(), ToAddress: w.A("t3").Addr.String(), Amount: sdk.NewCoins(C("uusdc", 4e18))})
+		}
+		plan.Txs = append(plan.Txs, PlannedTx{Signer: r.Sender, Msgs: msgs, Tag: r.Name})
 	}
 	if comp != nil && u.After {
 		plan.Txs = append(plan.Txs, *comp)
@@ -236,7 +248,7 @@ func c04RunUnit(x *Explorer, u c04Unit, validate bool) *KStats {
 	}
 	// tx index of each request
 	off := 0
-	if u.Comp != "none" && !u.After {
+	if u.Comp != "none" && u.Comp != c04FailingSecond && !u.After {
 		off = 1
 	}
 	anyExec := false
@@ -421,6 +433,18 @@ func c04Units(tier string) []interface{} {
 	// target and its treasury can pay about one large bonus (both orders; the batch also picks its own)
 	for _, rs := range [][]int{{11}, {12}, {11, 12}, {12, 11}} {
 		us = append(us, c04Unit{Root: "R13", Reqs: rs, Comp: "none"})
+	}
+	// every single request, and every ordered pair, with a FAILING second message in the first request's
+	// transaction (the queued request must vanish with the rolled-back transaction; the other request settles)
+	for i := 0; i < n; i++ {
+		for _, r := range roots {
+			us = append(us, c04Unit{Root: r, Reqs: []int{i}, Comp: c04FailingSecond, After: true})
+		}
+		for j := 0; j < n; j++ {
+			if j != i {
+				us = append(us, c04Unit{Root: "R1", Reqs: []int{i, j}, Comp: c04FailingSecond, After: true})
+			}
+		}
 	}
 	comps := c04Companions[1:]
 	// single requests with every companion before / after
